@@ -104,6 +104,8 @@ ResizeOk == /\ IsEv("resize") /\ Resized(K, S, E.n, 0).ok /\ E.exc = ""
             /\ Upd(Resized(K, S, E.n, E.zero).s)
 ResizeFail == IsEv("resize") /\ ~Resized(K, S, E.n, 0).ok /\ Fails({"FormatError"})
 SortEv == IsEv("sort") /\ K # "List" /\ E.exc = "" /\ Upd(Sorted(S))
+SortByGt == IsEv("sortbygt") /\ K # "List" /\ E.exc = "" /\ Upd(Reverse(Sorted(S)))     \* sort_by(c, gt): descending
+SortByUnsupported == IsEv("sortbygt") /\ K = "List" /\ Fails({"ClassError"})
 SortUnsupported == IsEv("sort") /\ K = "List" /\ Fails({"ClassError"})      \* List does not implement the Sort class
 Assign == IsEv("assign") /\ E.exc = "" /\ Upd(q[E.src])
 Copy == IsEv("copy") /\ E.exc = "" /\ Step(With(q, E.o, q[E.src]), With(kind, E.o, kind[E.src]))
@@ -126,7 +128,7 @@ Bad == IsEv("bad") /\ Fails(Expected(E.what))
 
 Next == \/ Reset \/ End \/ New \/ Push \/ PushSame \/ PopOk \/ PopFail \/ PushAtOk \/ PushAtFail \/ PopAtOk \/ PopAtFail
         \/ SetOk \/ SetFail \/ GetOk \/ GetFail \/ RemOk \/ RemFail \/ MemEv \/ Concat \/ ConcatV \/ ResizeOk \/ ResizeFail
-        \/ SortEv \/ SortUnsupported \/ Assign \/ Copy \/ Del \/ Bad
+        \/ SortEv \/ SortUnsupported \/ SortByGt \/ SortByUnsupported \/ Assign \/ Copy \/ Del \/ Bad
 
 Spec == Init /\ [][Next]_vars
 
